@@ -67,6 +67,7 @@ POOLS = {
     "fix_field_path": [["book.class"], ["class.name"], ["import.from.x"], ["a"], [""], ["a..b"], [".class"], ["type.type"]],
     "field_header_disambiguated": [["book.class"], ["class.name"], ["import.from.x"], ["a"], [""], ["a..b"], [".class"], ["type.type"], ["name"]],
     "routing_param_disambiguated_field": [["book.class"], ["class"], ["scope.type"], ["a"], [""], ["name"]],
+    "client_method_name": [[n, b] for n in ("Import", "GetBook", "Class", "import", "None", "Async", "_Get", "", "Return") for b in (False, True)],
     "make_private": [["a"], ["_a"], [""], ["__a"], ["A_b"]],
     "coerce_response_name": [["$resp"], ["$resp.name"], ["x.$resp"], ["$resp$resp"], ["resp"], [""]],
     "address_resolve": [[pk, sel] for pk in ([], ["acme"], ["acme", "lib", "v1"]) for sel in ("Book", "a.Book", ".Book", "", ".", "Outer.Inner", "Book.")],
@@ -84,6 +85,7 @@ GENS = {
     "fix_field_path": lambda r: [".".join(r.pick(["class", "type", "format", "book", "from", "name", "x", "license"]) for _ in range(r.randint(1, 4)))],
     "field_header_disambiguated": lambda r: [".".join(r.pick(["class", "type", "format", "book", "from", "name", "x", "license"]) for _ in range(r.randint(1, 4)))],
     "routing_param_disambiguated_field": lambda r: [".".join(r.pick(["class", "type", "format", "book", "from", "name", "x", "license"]) for _ in range(r.randint(1, 4)))],
+    "client_method_name": lambda r: [r.pick(["Get", "List", "Import", "Pass", "Yield", "Global", "lambda", "Del", "Book", "_x"]), r.maybe()],
     "make_private": lambda r: [rand_str(r, 5, ws=False)],
     "coerce_response_name": lambda r: ["".join(r.pick(["$resp", ".", "a", "$", "resp", "_"]) for _ in range(r.randint(0, 5)))],
     "address_resolve": lambda r: [[r.pick(["acme", "lib", "v1", "a", "x_y"]) for _ in range(r.randint(0, 3))], rand_str(r, 6, ws=False)],
@@ -98,6 +100,10 @@ def call_real(name, meta, args):
             raise Skip()
         out = convert_uri_fieldnames("/v1/{%s=things/*}" % args[0])
         return out[len("/v1/{"):-len("=things/*}")]
+    if name == "client_method_name":
+        from gapic.schema import wrappers
+        import types as _t
+        return wrappers.Method.client_method_name.fget(_t.SimpleNamespace(name=args[0], is_internal=args[1]))
     if name == "field_header_disambiguated":
         from gapic.schema import wrappers
         return wrappers.FieldHeader(args[0]).disambiguated
